@@ -109,6 +109,7 @@ def build(flavour="asan", harness=(), cli=False, extra_defs="", tag=None, quiet=
     cflags = "%s %s %s -Wno-deprecated-declarations -w" % (FLAVOURS[flavour], DEFS, extra_defs)
     inc = "-I%s/libyara -I%s/libyara/include -I%s" % (REPO, REPO, REPO)
     mk = []
+    mk.append(".SUFFIXES:")
     mk.append("CC=gcc")
     mk.append("CFLAGS=%s" % cflags)
     mk.append("INC=%s" % inc)
@@ -145,7 +146,9 @@ def build(flavour="asan", harness=(), cli=False, extra_defs="", tag=None, quiet=
     mkpath = os.path.join(bdir, "Makefile.%s" % hashlib.sha1(text.encode()).hexdigest()[:10])
     with open(mkpath, "w") as f:
         f.write(text)
-    r = subprocess.run(["make", "-j%d" % (os.cpu_count() or 4), "-f", mkpath, "all"], cwd=bdir,
+    # -r -R: no built-in rules/variables. Without it GNU make applies its implicit `%.c: %.l` / `%.c: %.y` rules to the
+    # prerequisites named in the .d files and REWRITES <repo>/libyara/lexer.c / grammar.c when the .l/.y is newer.
+    r = subprocess.run(["make", "-r", "-R", "-j%d" % (os.cpu_count() or 4), "-f", mkpath, "all"], cwd=bdir,
                        stdout=subprocess.PIPE, stderr=subprocess.STDOUT, text=True)
     if r.returncode != 0:
         raise BuildError("build of %s failed:\n%s" % (name, r.stdout[-6000:]))
